@@ -25,8 +25,23 @@ import time
 VERIF = os.path.dirname(os.path.dirname(os.path.abspath(__file__)))
 SYMX = os.path.join(VERIF, "symx")
 BUILD = os.path.join(VERIF, ".build")
-HX_SYM = os.path.join(BUILD, "sym", "debug", "hx-sym")
-HX_REAL = os.path.join(BUILD, "real", "debug", "hx-real")
+# VERIF_REPO (default /repo): the tree the contracts are built from.  Only used to try the checks
+# against a scratch worktree (seeded changes) without touching /repo; everything derived from an
+# alternative tree (workspaces, build output, evidence, replays) lives under .build/alt-<hash>/ so
+# that nothing registered in MANIFEST.json is affected.
+REPO = os.path.abspath(os.environ.get("VERIF_REPO", "/repo"))
+ALT = None
+if REPO != "/repo":
+    ALT = os.path.join(BUILD, "alt-" + hashlib.sha1(REPO.encode()).hexdigest()[:8])
+    BUILD_T = ALT
+    WS_ROOT = os.path.join(ALT, "symx")
+    OUT_ROOT = ALT
+else:
+    BUILD_T = BUILD
+    WS_ROOT = SYMX
+    OUT_ROOT = VERIF
+HX_SYM = os.path.join(BUILD_T, "sym", "debug", "hx-sym")
+HX_REAL = os.path.join(BUILD_T, "real", "debug", "hx-real")
 ENV = dict(os.environ, CARGO_NET_OFFLINE="true")
 JOBS = int(os.environ.get("SYMX_JOBS", "14"))
 
@@ -44,6 +59,13 @@ def ensure_vendor():
         lock = os.path.join(SYMX, ws, "Cargo.lock")
         if not os.path.exists(lock):
             shutil.copy("/repo/Cargo.lock", lock)
+    if ALT:
+        os.makedirs(WS_ROOT, exist_ok=True)
+        for ws in ("ws-sym", "ws-real"):
+            os.makedirs(os.path.join(WS_ROOT, ws), exist_ok=True)
+            t = open(os.path.join(SYMX, ws, "Cargo.toml")).read().replace('"/repo/', '"' + REPO + '/').replace('"../', '"' + SYMX + '/')
+            open(os.path.join(WS_ROOT, ws, "Cargo.toml"), "w").write(t)
+            shutil.copy(os.path.join(SYMX, ws, "Cargo.lock"), os.path.join(WS_ROOT, ws, "Cargo.lock"))
 
 
 def build():
@@ -53,8 +75,8 @@ def build():
     for ws, tgt in (("ws-sym", "sym"), ("ws-real", "real")):
         p = subprocess.run(
             ["cargo", "build", "--offline", "-q"],
-            cwd=os.path.join(SYMX, ws),
-            env=dict(ENV, CARGO_TARGET_DIR=os.path.join(BUILD, tgt)),
+            cwd=os.path.join(WS_ROOT, ws),
+            env=dict(ENV, CARGO_TARGET_DIR=os.path.join(BUILD_T, tgt)),
             stdout=subprocess.PIPE,
             stderr=subprocess.STDOUT,
             text=True,
@@ -106,23 +128,30 @@ def concrete(binary, name, seed, items, tmp, tag):
 # ------------------------------------------------------------------------------------------
 # Kani part (C19): bit-precise bounded model checking of Integer against a sign/magnitude model
 # ------------------------------------------------------------------------------------------
-KANI_DIR = os.path.join(VERIF, "kani", "intprops")
+KANI_SRC = os.path.join(VERIF, "kani", "intprops")
+KANI_DIR = KANI_SRC if not ALT else os.path.join(ALT, "kani", "intprops")
 KANI_QUICK = ["checked_add", "checked_sub", "add_op", "sub_op", "unary", "cmp", "mul_div_small"]
 KANI_THOROUGH = KANI_QUICK + ["checked_mul"]
-REPLAY_BIN = os.path.join(BUILD, "kani-native", "debug", "replay")
+REPLAY_BIN = os.path.join(BUILD_T, "kani-native", "debug", "replay")
 
 
 def kani_native_build():
+    if ALT:
+        os.makedirs(KANI_DIR, exist_ok=True)
+        if not os.path.islink(os.path.join(KANI_DIR, "src")):
+            os.symlink(os.path.join(KANI_SRC, "src"), os.path.join(KANI_DIR, "src"))
+        t = open(os.path.join(KANI_SRC, "Cargo.toml")).read().replace('"/repo/', '"' + REPO + '/')
+        open(os.path.join(KANI_DIR, "Cargo.toml"), "w").write(t)
     lock = os.path.join(KANI_DIR, "Cargo.lock")
     if not os.path.exists(lock):
         shutil.copy("/repo/Cargo.lock", lock)
-    p = subprocess.run(["cargo", "build", "--offline", "-q"], cwd=KANI_DIR, env=dict(ENV, CARGO_TARGET_DIR=os.path.join(BUILD, "kani-native")), stdout=subprocess.PIPE, stderr=subprocess.STDOUT, text=True)
+    p = subprocess.run(["cargo", "build", "--offline", "-q"], cwd=KANI_DIR, env=dict(ENV, CARGO_TARGET_DIR=os.path.join(BUILD_T, "kani-native")), stdout=subprocess.PIPE, stderr=subprocess.STDOUT, text=True)
     return p.returncode == 0, p.stdout[-2000:]
 
 
 def kani_operands(harness, extra_args):
     """re-run one failing harness with concrete playback and extract the operand bytes"""
-    p = subprocess.run(["cargo", "kani", "--target-dir", os.path.join(BUILD, "kani"), "-Z", "stubbing", "-Z", "concrete-playback", "--concrete-playback=print", "--output-format", "terse", "--harness", harness] + extra_args,
+    p = subprocess.run(["cargo", "kani", "--target-dir", os.path.join(BUILD_T, "kani"), "-Z", "stubbing", "-Z", "concrete-playback", "--concrete-playback=print", "--output-format", "terse", "--harness", harness] + extra_args,
                        cwd=KANI_DIR, env=ENV, stdout=subprocess.PIPE, stderr=subprocess.STDOUT, text=True, timeout=3000)
     vecs = re.findall(r"^\s*vec!\[([0-9,\s]*)\],?\s*$", p.stdout, re.M)
     vals = []
@@ -139,7 +168,7 @@ def run_kani(tier):
     if not ok:
         return {}, [], ["native replay build failed: " + out], 0.0
     harnesses = KANI_QUICK if tier == "quick" else KANI_THOROUGH
-    args = ["cargo", "kani", "--target-dir", os.path.join(BUILD, "kani"), "-Z", "stubbing", "-j", "8", "--output-format", "terse"]
+    args = ["cargo", "kani", "--target-dir", os.path.join(BUILD_T, "kani"), "-Z", "stubbing", "-j", "8", "--output-format", "terse"]
     for h in harnesses:
         args += ["--harness", h]
     p = subprocess.run(args, cwd=KANI_DIR, env=ENV, stdout=subprocess.PIPE, stderr=subprocess.STDOUT, text=True, timeout=7200)
@@ -209,10 +238,10 @@ def main():
         sys.exit(3)
     prop, tier = sys.argv[1], sys.argv[2]
     seed = int(os.environ.get("VERIF_SEED", "0") or 0)
-    tmp = os.path.join(BUILD, "run", f"{prop}-{tier}-{os.getpid()}")
+    tmp = os.path.join(BUILD_T, "run", f"{prop}-{tier}-{os.getpid()}")
     os.makedirs(tmp, exist_ok=True)
-    os.makedirs(os.path.join(VERIF, "evidence"), exist_ok=True)
-    os.makedirs(os.path.join(VERIF, "replays"), exist_ok=True)
+    os.makedirs(os.path.join(OUT_ROOT, "evidence"), exist_ok=True)
+    os.makedirs(os.path.join(OUT_ROOT, "replays"), exist_ok=True)
     t_start = time.time()
     build_s = build()
 
@@ -309,7 +338,7 @@ def main():
                 known_hits.append((k, entry))
                 continue
             h = hashlib.sha1((name + r["label"] + r["detail"]).encode()).hexdigest()[:10]
-            path = os.path.join(VERIF, "replays", f"{prop}-{h}.json")
+            path = os.path.join(OUT_ROOT, "replays", f"{prop}-{h}.json")
             json.dump(entry, open(path, "w"), indent=1)
             violations.append((entry, path))
 
@@ -323,7 +352,7 @@ def main():
             if k:
                 known_hits.append((k, v))
                 continue
-            path = os.path.join(VERIF, "replays", f"{prop}-kani-{v['harness']}.json")
+            path = os.path.join(OUT_ROOT, "replays", f"{prop}-kani-{v['harness']}.json")
             json.dump(v, open(path, "w"), indent=1)
             violations.append(({"scenario": "kani." + v["harness"], "label": "kani/" + v["harness"], "detail": v["native"], "assignment": v["operands"]}, path))
 
@@ -397,7 +426,7 @@ def main():
         cov["obligations"] += len(kani_results)
         cov["discharged"] += sum(1 for r in kani_results.values() if r == "verified")
         ev["assumptions"].append("Kani/CBMC soundness for the loop-free harnesses; the two Display stubs only affect error-message construction")
-    json.dump(ev, open(os.path.join(VERIF, "evidence", f"{prop}.json"), "w"), indent=1)
+    json.dump(ev, open(os.path.join(OUT_ROOT, "evidence", f"{prop}.json"), "w"), indent=1)
     shutil.rmtree(tmp, ignore_errors=True)
 
     # ---------------- verdict
